@@ -238,6 +238,22 @@ impl EventGen for OtherElement {
 
             output.push(adapted);
         }
+        if self.0.name == "text" && !self.0.has_attr("transform") {
+            // A standalone text counts towards the extent by its anchor - where it is
+            // written, i.e. moved by text-loc / text-offset / text-dxy, not where
+            // its xy put it before that.
+            let anchor = output.iter().find_map(|ev| match ev {
+                OutputEvent::Start(t) | OutputEvent::Empty(t) if t.name == "text" => {
+                    let x = t.get_attr("x").and_then(|x| x.parse::<f32>().ok());
+                    let y = t.get_attr("y").and_then(|y| y.parse::<f32>().ok());
+                    x.zip(y)
+                }
+                _ => None,
+            });
+            if let (Some((x, y)), Some(_)) = (anchor, bb) {
+                bb = Some(BoundingBox::new(x, y, x, y));
+            }
+        }
         if self.0.name == "point" {
             // point elements have no bounding box, and are primarily used for
             // update_element() side-effects, e.g. setting prev_element.
